@@ -23,7 +23,7 @@ REQUIRED_MONITORS = ["programs:transformed", "outputs:compared", "grads:compared
 REQUIRED_REACH = {"transforms/_unit_scale.py": ["unit_scaling_backend.<locals>.inner_backend", "_unit_scale_residual", "_unconstrain_node", "_is_self_attention",
                                                 "_unit_init_weights", "_zero_init_biases", "unit_scale", "_add_dependency_meta"],
                   "transforms/utils.py": ["apply_transform", "replace_node_with_function"]}
-MIN_NONTRIVIAL = {"quick": 120, "thorough": 2500}
+MIN_NONTRIVIAL = {"quick": 120, "thorough": 6000}
 REACH = True
 FORMS = ["embedding", "nn_gelu", "nn_softmax", "linear_2arg", "bias_kw", "conv1d", "nn_conv1d"]
 
